@@ -5,7 +5,7 @@
 EXTENDS Paths, TLC, Json
 
 CONSTANTS N           \* maximal number of components of a key string
-VARIABLES api, key, done, k2
+VARIABLES api, key, done, k2, tf, sub
 
 \* the sandbox root as the driver lays it out: <parent>/l1/l2/l3/root
 Root == <<"l1", "l2", "l3", "root">>
@@ -23,8 +23,8 @@ Apis == {
 
 KeysUpTo(n) == [abs : BOOLEAN, comps : UNION {[1..m -> Alphabet] : m \in 1..n}]
 
-MCInit == api \in Apis /\ key \in KeysUpTo(N) /\ done = FALSE /\ k2 = key
-MCNext == ~done /\ done' = TRUE /\ UNCHANGED <<api, key, k2>>
+MCInit == api \in Apis /\ key \in KeysUpTo(N) /\ done = FALSE /\ k2 = key /\ tf = <<"-", "-">> /\ sub = FALSE
+MCNext == ~done /\ done' = TRUE /\ UNCHANGED <<api, key, k2, tf, sub>>
 
 Predicted == TemplateConfines(Root, api.t, key)
 \* The design-level property: every API confines every key.  Refuted by TLC for the raw-join templates;
@@ -35,11 +35,25 @@ DesignConfines == Predicted
 \* well-formed = plain components only (hex hashes, product/region/endpoint names, versions with dots)
 WellFormed == [abs : {FALSE}, comps : UNION {[1..m -> {"p", "q", "pt", "pa"}] : m \in 1..2}]
 PairApis == {a \in Apis : a.name \in {"disk.raw", "disk.raw.subdirs", "disk.ribbit.endpoint", "disk.config.hash", "proto.ribbit"}}
-PairInit == api \in PairApis /\ key \in WellFormed /\ k2 \in WellFormed /\ key # k2 /\ done = FALSE
-PairNext == ~done /\ done' = TRUE /\ UNCHANGED <<api, key, k2>>
+PairInit == api \in PairApis /\ key \in WellFormed /\ k2 \in WellFormed /\ key # k2 /\ done = FALSE /\ tf = <<"-", "-">> /\ sub = FALSE
+PairNext == ~done /\ done' = TRUE /\ UNCHANGED <<api, key, k2, tf, sub>>
 \* design-level: two different well-formed keys never resolve to the same file
 Injective == Resolve(Root, api.t, key) # Resolve(Root, api.t, k2)
 EmitPair == done => PrintT(<<"PROGRAM", ToJson([api |-> "pair:" \o api.name, k1 |-> key, k2 |-> k2, predicted_distinct |-> Injective])>>)
+
+\* ---- pairs of typed keys that differ in exactly one field (every field of every typed key) -----------------------
+TypedFields == {<<"ribbit", "endpoint">>, <<"ribbit", "region">>, <<"ribbit", "product">>, <<"ribbit", "product_none">>,
+                <<"config", "type">>, <<"config", "hash">>, <<"blte", "ekey">>, <<"blte", "block">>, <<"blte", "block_none">>,
+                <<"content", "ckey">>, <<"index", "name">>, <<"index", "hash">>,
+                <<"manifest", "type">>, <<"manifest", "ckey">>, <<"manifest", "version">>, <<"manifest", "version_none">>,
+                <<"root", "ckey">>, <<"root", "parsed">>, <<"root", "version">>, <<"root", "version_none">>,
+                <<"encoding", "ekey">>, <<"encoding", "parsed">>, <<"encoding", "page">>, <<"encoding", "page_none">>,
+                <<"range", "archive">>, <<"range", "offset">>, <<"range", "length">>,
+                <<"block", "ckey">>, <<"block", "index">>, <<"block", "decompressed">>}
+TypedInit == tf \in TypedFields /\ sub \in BOOLEAN /\ done = FALSE /\ api = (CHOOSE a \in Apis : TRUE)
+             /\ key = [abs |-> FALSE, comps |-> <<"p">>] /\ k2 = key
+TypedNext == ~done /\ done' = TRUE /\ UNCHANGED <<tf, sub, api, key, k2>>
+EmitTyped == done => PrintT(<<"PROGRAM", ToJson([api |-> "pair:typed", ty |-> tf[1], vary |-> tf[2], subdirs |-> sub])>>)
 
 Emit == done => PrintT(<<"PROGRAM", ToJson([api |-> api.name, abs |-> key.abs, comps |-> key.comps,
                                             predicted_confined |-> Predicted,
